@@ -147,7 +147,8 @@ def build_ode_driver(proj, param_values=None, sanitize=True):
     fields = data_fields(proj)
     pv = param_values or {}
     body = "".join(f"    data.{k} = {float(pv.get(k, 1.0 if v is None else v))!r};\n" for k, v in fields.items())
-    tmpl = tmpl.replace("@@DATA_FIELDS@@", body).replace("@@BACKEND_BODY@@", _ODEINT_BODY if proj.solver == "odeint" else _CVODE_BODY)
+    setf = "".join(f"    if (i < v.size()) data.{k} = v[i]; i++;\n" for k in fields)
+    tmpl = tmpl.replace("@@DATA_FIELDS@@", body).replace("@@SET_FIELDS@@", setf).replace("@@BACKEND_BODY@@", _ODEINT_BODY if proj.solver == "odeint" else _CVODE_BODY)
     drv = proj.path / "vt_ode_driver.cpp"
     drv.write_text(tmpl)
     exe = proj.path / "vt_ode_driver"
